@@ -55,6 +55,12 @@ def bootstrap():
     else:
         sys.path.insert(0, REPO)
         import oslo_utils as mod
+    # the code under test logs warnings/errors for hostile inputs; keep
+    # them off the check's output
+    import logging
+    lg = logging.getLogger('oslo_utils')
+    lg.addHandler(logging.NullHandler())
+    lg.propagate = False
     where = os.path.realpath(os.path.dirname(mod.__file__))
     if not where.startswith(REPO + os.sep):
         raise HarnessError('oslo_utils imported from %s, not from %s'
